@@ -122,7 +122,7 @@ def check_one(d, stats=None):
 
 
 def run_shard(ctx):
-    n = ctx.scale(500, 40000)
+    n = ctx.scale(500, 15000)
     hyp_search(ctx, cases(), lambda d: check_one(d, ctx.stats), n)
 
 
